@@ -55,6 +55,10 @@ def compute_target(target, settings=None, tmpdir=None):
             s.AddFunction('damp', lambda a, b: 0.25 * a + 0.125 * b)
         if settings.get('trace') is not None:
             s.TraceStep = settings['trace']
+        if target.get('steady'):
+            # the optional initial steady-state search is part of what the target asks for
+            s.ParameterSolveInitialSteadyState = True
+            s.ParameterInitialSteadyStateMaxTime = 60
         if settings.get('logging') and tmpdir:
             Logger.register_standard_logs(os.path.join(tmpdir, 'blk'))
         try:
@@ -104,7 +108,7 @@ class C17(object):
     assumptions = ['Model.main() called twice on one model is outside the statement',
                    'fresh interpreter started with the same PYTHONHASHSEED']
     required_counters = ('fresh_vs_history.compared', 'series.compared', 'reparse.judged', 'logging.on', 'trace.on',
-                         'resolve.on')
+                         'resolve.on', 'steady_state_option.on')
 
     def n_cases(self, tier):
         return 32 if tier == 'quick' else 1200
@@ -120,7 +124,8 @@ class C17(object):
             target = {'type': 'book', 'name': rng.choice(BOOKS), 'maxtime': rng.randint(2, 8)}
         else:
             spec = G.gen_affine(rng, rho=rng.choice([0.3, 0.6]), tol=1e-9, maxtime=rng.randint(1, 8))
-            target = {'type': 'block', 'text': G.render(spec), 'reduction': rng.random() < 0.5}
+            target = {'type': 'block', 'text': G.render(spec), 'reduction': rng.random() < 0.5,
+                      'steady': rng.random() < 0.35}
             if rng.random() < 0.5:
                 # a block that uses user-defined functions (registered with AddFunction)
                 x = spec['simul'][0]['name']
@@ -242,6 +247,8 @@ class C17(object):
             rec.count('trace.on')
         if s['resolves']:
             rec.count('resolve.on')
+        if case['target'].get('steady'):
+            rec.count('steady_state_option.on')
         if got is not None:
             rec.count('fresh_vs_history.compared')
             if '__resolve_differs__' in got:
